@@ -387,6 +387,55 @@ func frameGuard(repo string) string {
 	return ""
 }
 
+// snapGuards checks that SaveSnapshot refuses a header and an entry record longer than math.MaxUint16
+// (an `if <len> > math.MaxUint16 { return …error… }` for each) and generates the two guards.
+func snapGuards(repo string) string {
+	file := "stores/basestore/utils.go"
+	f, err := parser.ParseFile(fset, filepath.Join(repo, file), nil, 0)
+	if err != nil {
+		die("%s: %v", file, err)
+	}
+	fd := findFunc(f, "SaveSnapshot")
+	if fd == nil {
+		die("%s: SaveSnapshot not found", file)
+	}
+	found := map[string]string{}
+	ast.Inspect(fd.Body, func(n ast.Node) bool {
+		is, ok := n.(*ast.IfStmt)
+		if !ok {
+			return true
+		}
+		be, ok := is.Cond.(*ast.BinaryExpr)
+		if !ok || src(be.Y) != "math.MaxUint16" {
+			return true
+		}
+		returns := false
+		for _, st := range is.Body.List {
+			if r, ok := st.(*ast.ReturnStmt); ok && len(r.Results) == 2 && src(r.Results[1]) != "nil" {
+				returns = true
+			}
+		}
+		if !returns {
+			return true
+		}
+		op := map[token.Token]string{token.GTR: ">", token.GEQ: "≥"}[be.Op]
+		if op == "" {
+			die("%s: SaveSnapshot guard %q", file, src(be))
+		}
+		switch src(be.X) {
+		case "headerSize":
+			found["header"] = op
+		case "len(entryJSON)":
+			found["entry"] = op
+		}
+		return true
+	})
+	if found["header"] == "" || found["entry"] == "" {
+		die("%s: SaveSnapshot does not refuse oversized header / entry records (found %v)", file, found)
+	}
+	return fmt.Sprintf("/-- generated from %s, func SaveSnapshot: a header / an entry record of n bytes is refused when this holds -/\ndef genSnapHeaderRefused (n : Int) : Bool := decide (n %s 65535)\ndef genSnapEntryRefused (n : Int) : Bool := decide (n %s 65535)\n\n", file, found["header"], found["entry"])
+}
+
 func main() {
 	if len(os.Args) != 3 {
 		fmt.Fprintln(os.Stderr, "usage: extract <repo> <outdir>")
@@ -407,6 +456,10 @@ func main() {
 			params: []string{"amountSet", "amount0", "len"}, bools: map[string]bool{"amountSet": true},
 			calls:  map[string]string{"options.Amount != nil": "amountSet", "*options.Amount": "amount0", "len(events)": "len"},
 			only:   "amount := 1", result: "stop:var c cid.Cid", resVar: "amount"},
+		{file: "stores/basestore/base_store.go", fn: "Load", lean: "genLoadAmount",
+			params: []string{"mhSet", "mh"}, bools: map[string]bool{"mhSet": true},
+			calls:  map[string]string{"b.options.MaxHistory != nil": "mhSet", "*b.options.MaxHistory": "mh"},
+			only:   "if amount <= 0 && b.options.MaxHistory != nil", result: "stop:var localHeads", resVar: "amount"},
 	}
 	var sb strings.Builder
 	sb.WriteString("/-! GENERATED by /verif/extract from /repo on every run — do not edit. -/\nset_option linter.unusedVariables false\nnamespace Orbit.Gen\n\n")
@@ -417,6 +470,7 @@ func main() {
 	sb.WriteString(frameGuard(repo))
 	fmt.Fprintf(&sb, "/-- stores/replicator/replicator.go: batchSize -/\ndef batchSize : Int := %s\n\n", constantOf(repo, "stores/replicator/replicator.go", "batchSize"))
 	fmt.Fprintf(&sb, "/-- stores/basestore/base_store.go: default referenceCount -/\ndef referenceCount : Int := %s\n\n", assignedConst(repo, "stores/basestore/base_store.go", "InitBaseStore", "b.referenceCount"))
+	sb.WriteString(snapGuards(repo))
 	sb.WriteString("end Orbit.Gen\n")
 	os.MkdirAll(out, 0o755)
 	path := filepath.Join(out, "Gen.lean")
